@@ -14,6 +14,7 @@
 #include <fstream>
 #include <sstream>
 #include <sys/stat.h>
+#include <time.h>
 #include <unistd.h>
 
 namespace vf {
@@ -322,6 +323,8 @@ int main(int argc, char **argv)
 
     h->setup();
     Stats st;
+    time_t first_fail_at = 0;
+    long shrink_seconds = getenv("VF_SHRINK_SECONDS") ? atol(getenv("VF_SHRINK_SECONDS")) : 45;
     if (getenv("VF_EXHAUSTIVE") && vf_exhaustive) {
         std::string rep, fail;
         if (vf_exhaustive(rep, fail) != 0) {
@@ -349,7 +352,8 @@ int main(int argc, char **argv)
         bool shrinking = st.failed;
         if (shrinking) {
             st.shrink_evaluations++;
-            if ((long)st.shrink_evaluations > shrink_budget) return; // stop shrinking
+            if ((long)st.shrink_evaluations > shrink_budget || time(NULL) - first_fail_at > shrink_seconds)
+                return; // stop shrinking: remaining candidates "pass"
         } else
             st.evaluations++;
         std::string text = plan_to_text(p);
@@ -372,6 +376,7 @@ int main(int argc, char **argv)
             }
         }
         if (!o.ok) {
+            if (!st.failed) first_fail_at = time(NULL);
             st.failed = true;
             st.fail_msg = o.msg;
             st.fail_trace = c.trace;
